@@ -230,6 +230,19 @@ class SimClock(object):
     def sleep(self, s):
         self.now += s
 
+    # the seam also has to survive `from time import time`, time.monotonic(), time.perf_counter() in the code under test
+    def __call__(self):
+        return self.time()
+
+    def monotonic(self):
+        return self.time()
+
+    def perf_counter(self):
+        return self.time()
+
+    def process_time(self):
+        return self.time()
+
 
 class SimGlob(object):
     """Replacement for the ``glob`` module: the real listing in an order the scenario picks."""
